@@ -61,102 +61,122 @@ REFERENCE = {
 }
 
 
+def subst(t, old, new):
+    if t == old:
+        return new
+    if isinstance(t, tuple):
+        return tuple(subst(x, old, new) if isinstance(x, (tuple, frozenset)) else x for x in t)
+    if isinstance(t, frozenset):
+        return frozenset(subst(x, old, new) for x in t)
+    return t
+
+
+def finaliser(F):
+    """the function that turns (unfinished model, pending function builder) into Result<unfinished model, error>"""
+    c = [b for b in F.bodies.values() if b.kind != "Closure" and len(b.j.get("inputs", [])) == 2
+         and ADT_UNFINISHED in b.j["inputs"][0] and ADT_FNBUILDER in b.j["inputs"][1]
+         and b.j.get("output", "").startswith("std::result::Result<") and ADT_UNFINISHED in b.j.get("output", "")]
+    if len(c) != 1:
+        raise AnchorMissing("finaliser (UnfinishedModel, ModelBasisFunctionBuilder) -> Result<UnfinishedModel, _>: %d candidates" % len(c))
+    return c[0]
+
+
 def rule_typestate(F, ev_unused, R, config, rule="R-TYPESTATE"):
+    """Transition table of the builder, decided by evaluating every public method once per state:
+    `self` is replaced by a symbolic aggregate of that state, local helpers, closures and
+    self-delegation are inlined, and every `match` on a value whose variant is then known is
+    partially evaluated (terms.Eval.inline_env). Where the dispatch on the state sits — in the
+    method, in a private helper, behind a closure — does not matter."""
+    from rules_panic import nosite
     ms = builder_methods(F)
     for m in list(REFERENCE) + ["build"]:
         if m not in ms:
             R.bad(rule, config, ADT_MBUILDER, "anchor-missing:" + m, "builder method `%s` not found" % m)
-    opaque = [b.key for b in ms.values()]
-    ev = Eval(F, opaque=opaque)
+    fin = finaliser(F)
+    import props
+    ev = Eval(F, opaque=set(props.make_eval(F).opaque) | {fin.key})
+    fin_cid = strip_generics(fin.j["path"])
+    vfields = {v["name"]: [f["name"] for f in v["fields"]] for v in adt(F, ADT_MBUILDER)["variants"]}
     table = {}
-    delegs = {}
-    extras = {}
     for name, b in ms.items():
         if name not in REFERENCE and name != "build":
             # a new state-changing method: must be reviewed
             if ADT_MBUILDER in b.j.get("output", ""):
                 R.bad(rule, config, b.key, "unknown-transition", "builder method `%s` is not in the reviewed transition table" % name, b.j["span"])
             continue
-        sw, arms = entry_match(b)
-        if sw is None:
-            R.bad(rule, config, b.key, "no-match-on-state", "method does not start by matching on the builder state (undetermined)", b.j["span"])
-            continue
+        me = ("param", b.key, 1)
         for v in VARIANTS:
-            if v not in arms:
-                R.bad(rule, config, b.key, "arm:" + v, "no arm for state %s" % v, b.j["span"])
+            if v not in vfields:
+                R.bad(rule, config, b.key, "arm:" + v, "no state %s" % v, b.j["span"])
                 continue
-            pb = pruned(b, sw, arms[v])
+            synth = ("agg", ADT_MBUILDER, v, tuple((f, ("payload", me, v, f)) for f in vfields[v]))
             ev.fresh_ctx()
-            val = ev.ret_val(Env(pb))
-            table[(name, v)] = val
-    # resolve variant sets with delegation
-    meth_ids = {strip_generics(b.j["path"]): n for n, b in ms.items()}
-    sets = {}
+            args = {1: synth}
+            for k in range(2, b.arg_count + 1):
+                args[k] = ("param", b.key, k)
+            table[(name, v)] = nosite(ev.inline_ret(b, args, 0))
 
-    def vs(name, v, depth=0):
-        if (name, v) in sets:
-            return sets[(name, v)]
-        val = table.get((name, v))
-        if val is None:
-            return {"?"}
+    def alts_of(val):
+        return list(val[1]) if val is not None and val[0] == "phi" else ([val] if val is not None else [])
+
+    def states(val):
         out = set()
-        alts = val[1] if val[0] == "phi" else (val,)
-        for a in alts:
+        for a in alts_of(val):
             if a[0] == "agg" and a[1] == ADT_MBUILDER:
                 out.add(a[2])
-            elif a[0] == "call" and a[1] in meth_ids and depth < 2:
-                callee = meth_ids[a[1]]
-                recv = a[3][0]
-                rv = set()
-                for ra in (recv[1] if recv[0] == "phi" else (recv,)):
-                    if ra[0] == "agg" and ra[1] == ADT_MBUILDER:
-                        rv.add(ra[2])
-                    else:
-                        rv.add("?")
-                delegs[(name, v)] = (callee, rv, recv, a)
-                for x in rv:
-                    out |= vs(callee, x, depth + 1) if x in VARIANTS else {"?"}
             elif a[0] == "unreachable":
                 continue
             else:
                 out.add("?")
-                extras[(name, v)] = a
-        sets[(name, v)] = out
         return out
+
+    def pending(b):
+        me = ("param", b.key, 1)
+        return ("payload", me, "FunctionBuilding", "model"), ("payload", me, "FunctionBuilding", "function_builder")
+
+    def finalised_forms(b, name, norm_model_term, err_wrap):
+        """(ok, msg): the value for the FunctionBuilding state equals the value for the Normal state with the
+        model replaced by the Ok payload of finaliser(model, function_builder), plus err_wrap(Err payload)"""
+        pm, pf = pending(b)
+        val = table.get((name, "FunctionBuilding"))
+        X = None
+        for x in walk(val) if val is not None else []:
+            if x[0] == "call" and x[1] == fin_cid and len(x[3]) == 2 and x[3][0] == pm and x[3][1] == pf:
+                X = x
+                break
+        if X is None:
+            return False, "the pending function is not finalised (validated and added to the model) before `%s` is applied" % name
+        okp, errp = ("payload", X, "ok", "0"), ("payload", X, "Err", "0")
+        want = set(subst(a, norm_model_term, okp) for a in alts_of(table.get((name, "Normal"))))
+        want.add(err_wrap(errp))
+        got = set(alts_of(val))
+        if got == want:
+            return True, ""
+        extra = [a for a in got if a not in want]
+        missing = [a for a in want if a not in got]
+        return False, "with a pending function, `%s` does not behave like `finalise the function, then %s`: %s" % (
+            name, name, ("unexpected result `%s`" % short(extra[0])[:100]) if extra else ("missing result `%s`" % short(missing[0])[:100]))
 
     for name in REFERENCE:
         if name not in ms:
             continue
         b = ms[name]
+        me = ("param", b.key, 1)
         for v in VARIANTS:
-            got = vs(name, v)
+            got = states(table.get((name, v)))
             want = REFERENCE[name][v]
             ok = got == want
             R.add(rule, config, b.key, "%s:%s→%s" % (name, v, "|".join(sorted(want))), ok,
-                  "" if ok else "from state %s, %s() can produce state(s) %s; the reviewed table allows %s%s" % (
-                      v, name, sorted(got), sorted(want), (" (unrecognised value %s)" % short(extras[(name, v)])[:80]) if (name, v) in extras else ""), b.j["span"])
-        # Error arm: payload moved unchanged
+                  "" if ok else "from state %s, %s() can produce state(s) %s; the reviewed table allows %s" % (v, name, sorted(got), sorted(want)), b.j["span"])
+        # Error state: payload moved unchanged
         val = table.get((name, "Error"))
         if val is not None:
-            ok = val == ("agg", ADT_MBUILDER, "Error", (("0", ("payload", ("param", b.key, 1), "Error", "0")),))
+            ok = val == ("agg", ADT_MBUILDER, "Error", (("0", ("payload", me, "Error", "0")),))
             R.add(rule, config, b.key, name + ":error-payload-unchanged", ok, "" if ok else "Error state is rewritten: `%s`" % short(val)[:120], b.j["span"])
-        # FunctionBuilding arm of finalising methods: delegate on From(extend_model(model, function_builder)) of *this* state
+        # FunctionBuilding state of finalising methods
         if name != "partial_deriv":
-            d = delegs.get((name, "FunctionBuilding"))
-            ok = False
-            msg = "the pending function is not finalised before `%s` is applied" % name
-            if d:
-                callee, rv, recv, callterm = d
-                me = ("param", b.key, 1)
-                uses_model = contains(recv, lambda x: x == ("payload", me, "FunctionBuilding", "model"))
-                uses_fb = contains(recv, lambda x: x == ("payload", me, "FunctionBuilding", "function_builder"))
-                ok = callee == name and rv == {"Normal", "Error"} and uses_model and uses_fb
-                # same user arguments are forwarded
-                fw = all(callterm[3][i] == ("param", b.key, i + 1) for i in range(1, len(callterm[3])))
-                ok = ok and fw
-                if not fw:
-                    msg = "the delegated call does not forward the caller's arguments unchanged"
-            R.add(rule, config, b.key, name + ":finalises-pending-function-then-retries", ok, "" if ok else msg, b.j["span"])
+            ok, msg = finalised_forms(b, name, ("payload", me, "Normal", "0"), lambda e: ("agg", ADT_MBUILDER, "Error", (("0", e),)))
+            R.add(rule, config, b.key, name + ":finalises-pending-function-then-retries", ok, msg, b.j["span"])
     # function(): Normal arm starts a function builder on this model
     if "function" in ms:
         b = ms["function"]
@@ -186,22 +206,38 @@ def rule_typestate(F, ev_unused, R, config, rule="R-TYPESTATE"):
         val = table.get(("build", "Error"))
         ok = val == ("agg", "std::result::Result", "Err", (("0", ("payload", me, "Error", "0")),))
         R.add(rule, config, b.key, "build:Error→Err(payload)", ok, "" if ok else "build() on an errored builder returns `%s`" % (short(val)[:120] if val else None), b.j["span"])
+        def ok_payloads(val):
+            out = set()
+            for a in alts_of(val):
+                if a[0] == "agg" and a[2] == "Ok":
+                    out.add(a[3][0][1])
+                elif a[0] == "opt":
+                    for x in alts_of(a[1]):
+                        if x[0] == "opt":
+                            x = x[1]
+                        out.add(x)
+            return out
         val = table.get(("build", "Normal"))
-        alts = val[1] if val and val[0] == "phi" else ((val,) if val else ())
-        oks = [a for a in alts if a[0] == "agg" and a[2] == "Ok"]
-        ok = len(oks) == 1 and oks[0][3][0][1][0] == "agg" and oks[0][3][0][1][1] == ADT_SEPMODEL
+        oks = list(ok_payloads(val))
+        ok = len(oks) == 1 and oks[0][0] == "agg" and oks[0][1] == ADT_SEPMODEL
         R.add(rule, config, b.key, "build:Normal→validated-model", ok, "" if ok else "build() on a Normal builder: `%s`" % (short(val)[:120] if val else None), b.j["span"])
-        val = table.get(("build", "FunctionBuilding"))
-        # must go through extend_model (finalise + validate the pending function) first: every Ok alternative's
-        # function list derives from a push of the built function
-        alts = val[1] if val and val[0] == "phi" else ((val,) if val else ())
-        if len(alts) == 1 and alts[0][0] == "opt":
-            alts = alts[0][1][1] if alts[0][1][0] == "phi" else (alts[0][1],)
-        ok = val is not None and contains(val, lambda x: x[0] == "agg" and x[1] == ADT_SEPMODEL) and \
-            contains(val, lambda x: x[0] == "mutated" and contains(x, lambda y: y == ("payload", me, "FunctionBuilding", "model"))) and \
-            contains(val, lambda x: x == ("payload", me, "FunctionBuilding", "function_builder"))
+        # Result values: the Ok payloads must be those of the Normal state on the finalised model (the error side
+        # may be expressed with combinators, which keep presence but not the Err payload in this term language)
+        pm, pf = pending(b)
+        fbv = table.get(("build", "FunctionBuilding"))
+        X = next((x for x in (walk(fbv) if fbv is not None else []) if x[0] == "call" and x[1] == fin_cid and len(x[3]) == 2 and x[3][0] == pm and x[3][1] == pf), None)
+        ok, msg = False, "the pending function is not finalised"
+        if X is not None:
+            want = set(subst(p_, ("payload", me, "Normal", "0"), ("payload", X, "ok", "0")) for p_ in ok_payloads(table.get(("build", "Normal"))))
+            got = ok_payloads(fbv)
+            ok = bool(want) and want == got
+            msg = "" if ok else "the model built with a pending function is not the validated model of `finalise, then build`: `%s`" % (short(next(iter(got - want or got or [("none",)])))[:120])
+            # no success without the finaliser having succeeded
+            for a in alts_of(fbv):
+                if a[0] == "agg" and a[2] == "Ok" and not contains(a, lambda y: y == ("payload", X, "ok", "0")):
+                    ok, msg = False, "Ok(model) that does not derive from the finalised model"
         R.add(rule, config, b.key, "build:FunctionBuilding→finalise-then-validate", ok,
-              "" if ok else "build() with a pending function does not finalise it before validating the model", b.j["span"])
+              "" if ok else "build() with a pending function does not finalise it before validating the model: " + msg, b.j["span"])
     # new(): invalid names -> Error
     news = [b for b in inherent_methods(F, ADT_MBUILDER, "new")]
     for b in news:
@@ -256,7 +292,78 @@ def rule_fn_result_sticky(F, ev, R, config, rule="R-FN-RESULT-STICKY"):
                 r = dict(v[3]).get(rf)
                 ok = (r[0] == "agg" and r[2] == "Err") or r == ("field", ("param", b.key, 1), rf) or (strip_mut(r)[0] == ("field", ("param", b.key, 1), rf))
                 R.add(rule, config, b.key, "rebuilt-with-Err-or-same", ok, "" if ok else "builder rebuilt with result `%s`" % short(r)[:100], s.get("span"))
-    R.floor(rule, config, 3, "two Err writes + one rebuild in partial_deriv")
+    # a failure of the wrapper construction for a derivative must be RECORDED in the builder's result
+    # (not dropped): every path from the Err edge of that call's result to the return writes Err(that error)
+    try:
+        from rules_model import wrapper_fn
+        W = wrapper_fn(F)
+    except AnchorMissing:
+        W = None
+    for b in inherent_methods(F, ADT_FNBUILDER):
+        if W is None or not (b.j.get("inputs") and ADT_FNBUILDER in b.j["inputs"][0]):
+            continue
+        env = Env(b)
+        ev_outer, ev = ev, Eval(F, opaque=set(ev.opaque) | {W.key})   # the wrapper constructor stays symbolic here
+        for wbi, wt in b.calls():
+            if not ("fn" in wt and (wt["fn"].get("resolved_key") or wt["fn"].get("key")) == W.key):
+                continue
+            n += 1
+            wterm = ev.call_val(env, wbi)
+            # blocks that record an error deriving from this call
+            rec_blocks = set()
+            whole_blocks = set()
+            for bi, si, s in b.stmts():
+                if s["k"] != "assign":
+                    continue
+                fsn = [e for e in s["place"]["proj"] if e["k"] == "field" and e.get("owner") == ADT_FNBUILDER and e["name"] == rf]
+                if fsn and len([e for e in s["place"]["proj"] if e["k"] in ("field", "downcast")]) == 1:
+                    v = ev.rvalue(env, s["rv"], (bi, si))
+                    if v[0] == "agg" and v[2] == "Err" and contains(v, lambda x: x[0] == "payload" and x[1] == wterm and x[2] == "Err"):
+                        rec_blocks.add(bi)
+                    elif contains(v, lambda x: x == wterm):
+                        whole_blocks.add(bi)
+            # discriminant tests of the call's result (followed through moves and tuples)
+            tracked = {(wt["dest"]["l"], ())}
+            changed = True
+            while changed:
+                changed = False
+                for bi, si, s in b.stmts():
+                    if s["k"] != "assign" or s["place"]["proj"]:
+                        continue
+                    rv = s["rv"]
+                    if rv["k"] == "use" and rv["op"]["k"] in ("copy", "move"):
+                        src = (rv["op"]["place"]["l"], proj_key(rv["op"]["place"]["proj"]))
+                        if src in tracked and (s["place"]["l"], ()) not in tracked:
+                            tracked.add((s["place"]["l"], ()))
+                            changed = True
+                    if rv["k"] == "agg" and rv["agg"] == "tuple":
+                        for i, o in enumerate(rv["ops"]):
+                            if o["k"] in ("copy", "move") and (o["place"]["l"], proj_key(o["place"]["proj"])) in tracked:
+                                k2 = (s["place"]["l"], (("field", str(i)),))
+                                if k2 not in tracked:
+                                    tracked.add(k2)
+                                    changed = True
+            err_targets = []
+            for (sb, si, pk, variants) in b.discr_switches():
+                if (pk[0], tuple(e for e in pk[1] if e != ("deref",))) in tracked:
+                    yes, no = variant_edge(b, sb, "Err")
+                    if yes:
+                        err_targets.extend(yes)
+            ok = False
+            msg = "the error of wrapping a derivative is neither tested nor stored (undetermined)"
+            if err_targets:
+                ok = True
+                for (u, tg) in err_targets:
+                    r = b.reachable(tg, avoid=rec_blocks) if tg not in rec_blocks else set()
+                    if any(x in r for x in b.exits()):
+                        ok = False
+                        msg = ("a failed derivative (wrong arity, unknown parameter name) is dropped: a path from the Err result of the wrapper "
+                               "construction reaches the return without recording that error in the builder")
+            elif whole_blocks:
+                ok = True
+            R.add(rule, config, b.key, "wrapper-error-recorded", ok, "" if ok else msg, wt.get("span"))
+        ev = ev_outer
+    R.floor(rule, config, 4, "two Err writes + one rebuild + the recorded wrapper error in partial_deriv")
 
 
 # --------------------------------------------------------------------------- #
